@@ -866,6 +866,9 @@ func keyEnc(sb *strings.Builder, v Value) bool {
 }
 
 func (w *W) mapFind(m *MapObj, key Value) *mapEntry {
+	if w.traced != nil && !w.inMapSet {
+		w.traceAccess("R", m)
+	}
 	var sb strings.Builder
 	conc := keyEnc(&sb, key)
 	if conc && m.nsym == 0 {
@@ -894,6 +897,18 @@ func (w *W) mapFind(m *MapObj, key Value) *mapEntry {
 }
 
 func (w *W) mapSet(m *MapObj, key, val Value) {
+	if w.traced != nil {
+		w.traceAccess("W", m)
+		if name, ok := w.traced[m]; ok && val.k == KPtr {
+			if p := val.ptr(); p != nil {
+				var sb strings.Builder
+				keyEnc(&sb, key)
+				w.traceRegister(p, name+"["+shortKey(sb.String())+"]", 1)
+			}
+		}
+		w.inMapSet = true
+		defer func() { w.inMapSet = false }()
+	}
 	if e := w.mapFind(m, key); e != nil {
 		w.store(&e.val, val)
 		return
